@@ -9,7 +9,10 @@ import (
 	"testing"
 
 	"github.com/avfs/avfs"
+	"github.com/avfs/avfs/idm/memidm"
 	"github.com/avfs/avfs/vfs/basepathfs"
+	"github.com/avfs/avfs/vfs/memfs"
+	"github.com/avfs/avfs/vfs/orefafs"
 	"pgregory.net/rapid"
 
 	"verif/harness/internal/fsx"
@@ -33,6 +36,42 @@ type inst struct {
 	rw, rr     *fsx.Runner
 	outside    fsx.Snap
 	skipSlot   map[int]bool
+	orefa      bool   // the underlying file system is an OrefaFS
+	win        bool   // both file systems emulate Windows: the ops keep /-paths and are rewritten on the way in
+	baseText   string // the base directory as the underlying file system spells it
+	confOnly   bool   // a call named a volume the base does not have: from here on only confinement is asserted
+	mentioned  bool   // a call passed the base directory's own text as a (virtual) path
+}
+
+// conv spells a /-path for the file systems of this instance.
+func (in *inst) conv(p string) string { return fsx.Retarget(fsx.Op{P: p}, in.win).P }
+
+func (in *inst) view(v avfs.VFS) fsx.FS {
+	if in.win {
+		return fsx.WinView{VFS: v}
+	}
+	return v
+}
+
+func newTyped(kind string, win bool) avfs.VFS {
+	if !win {
+		v, _ := world.NewVFS(kind)
+		return v
+	}
+	if kind == "OrefaFS" {
+		return orefafs.NewWithOptions(&orefafs.Options{OSType: avfs.OsWindows})
+	}
+	return memfs.NewWithOptions(&memfs.Options{OSType: avfs.OsWindows, Idm: memidm.NewWithOptions(&memidm.Options{OSType: avfs.OsWindows})})
+}
+
+// foreignVolume: a Windows path that names a volume other than C: (another drive, a UNC share, a
+// device path). The wrapper maps every volume into the base directory while a standalone file system
+// has no such volume: there is no reference answer, confinement is what remains to be asserted.
+func foreignVolume(p string) bool {
+	if strings.HasPrefix(p, `\\`) || strings.HasPrefix(p, `\??\`) {
+		return true
+	}
+	return len(p) >= 2 && p[1] == ':' && p[0] != 'C' && p[0] != 'c'
 }
 
 // sentinels outside the base directory: nothing may read, list or change them.
@@ -47,50 +86,70 @@ func sentinels(base string) []fsx.Op {
 }
 
 func newInst(kind, base string) (*inst, error) {
-	x, _ := world.NewVFS(kind)
-	r, _ := world.NewVFS(kind)
+	win := strings.HasSuffix(kind, "-win")
+	bk := strings.TrimSuffix(kind, "-win")
+	in := &inst{kind: kind, base: base, orefa: bk == "OrefaFS", win: win}
+	in.baseText = in.conv(base)
+	x, r := newTyped(bk, win), newTyped(bk, win)
 	for _, v := range []avfs.VFS{x, r} {
 		_ = v.SetUMask(0o022)
-		_ = v.Chdir("/")
+		_ = v.Chdir(in.conv("/"))
 	}
 	rx := fsx.NewRunner(x)
 	for _, o := range append([]fsx.Op{{K: "MkdirAll", P: "/w", Perm: 0o755}, {K: "MkdirAll", P: base, Perm: 0o755}}, sentinels(base)...) {
-		if out := rx.Do(o); out.Err != "ok" {
+		if out := rx.Do(fsx.Retarget(o, win)); out.Err != "ok" {
 			return nil, fmt.Errorf("setup %s: %s", o, out)
 		}
 	}
 	// the system directories of the reference exist in the virtual root too
-	for _, d := range []struct {
-		p string
-		m uint32
-	}{{"/home", 0o700}, {"/root", 0o700}, {"/tmp", 0o777}, {"/w", 0o755}} {
-		_ = x.Mkdir(base+d.p, 0o755)
-		_ = x.Chmod(base+d.p, fsx.ModeFromBits(d.m))
+	_ = r.Mkdir(in.conv("/w"), 0o755)
+	in.x, in.r = x, r
+	if win {
+		// (whatever directories a Windows-typed file system starts with)
+		for _, rec := range in.snapRef() {
+			if rec.Type == "d" && rec.Path != "/" {
+				_ = x.MkdirAll(in.conv(base+rec.Path), 0o755)
+				_ = x.Chmod(in.conv(base+rec.Path), fsx.ModeFromBits(rec.Perm))
+			}
+		}
+	} else {
+		for _, d := range []struct {
+			p string
+			m uint32
+		}{{"/home", 0o700}, {"/root", 0o700}, {"/tmp", 0o777}, {"/w", 0o755}} {
+			_ = x.Mkdir(base+d.p, 0o755)
+			_ = x.Chmod(base+d.p, fsx.ModeFromBits(d.m))
+		}
 	}
-	_ = r.Mkdir("/w", 0o755)
-	w, err := basepathfs.NewWithErr(x, base)
+	if win {
+		// the base directory carries the permission bits of the reference's root
+		if fi, err := r.Stat(in.conv("/")); err == nil {
+			_ = x.Chmod(in.baseText, fi.Mode().Perm())
+		}
+	}
+	w, err := basepathfs.NewWithErr(x, in.baseText)
 	if err != nil {
 		return nil, err
 	}
 	// both start in their root directory
-	_ = w.Chdir("/")
-	_ = r.Chdir("/")
-	in := &inst{kind: kind, base: base, x: x, w: w, r: r, rw: fsx.NewRunner(w), rr: fsx.NewRunner(r)}
-	in.rw.NoOwner, in.rr.NoOwner = kind == "OrefaFS", kind == "OrefaFS"
+	_ = w.Chdir(in.conv("/"))
+	_ = r.Chdir(in.conv("/"))
+	in.w, in.rw, in.rr = w, fsx.NewRunner(w), fsx.NewRunner(r)
+	in.rw.NoOwner, in.rr.NoOwner = in.orefa, in.orefa
 	in.outside = in.snapOutside()
 	return in, nil
 }
 
 func (in *inst) roots() []string {
-	if in.kind == "OrefaFS" {
-		return []string{"/a", "/b", "/c", "/home", "/root", "/tmp", "/w", "/secret"}
+	if in.orefa {
+		return []string{"/a", "/b", "/c", "/home", "/root", "/tmp", "/w", "/secret", "/B2", "/Bsrv", "/Bx", "/Users", "/Windows"}
 	}
 	return []string{"/"}
 }
 
 // snapOutside: the underlying file system without the base subtree (full, with mtimes).
 func (in *inst) snapOutside() fsx.Snap {
-	s := fsx.Snapshot(in.x, fsx.SnapOpts{Roots: in.roots(), Full: true, NoOwner: in.kind == "OrefaFS"})
+	s := fsx.Snapshot(in.view(in.x), fsx.SnapOpts{Roots: in.roots(), Full: true, NoOwner: in.orefa})
 	var out fsx.Snap
 	for _, r := range s {
 		if r.Path == in.base || strings.HasPrefix(r.Path, in.base+"/") {
@@ -120,14 +179,14 @@ func (in *inst) snapOutside() fsx.Snap {
 // snapInside: the base subtree of the underlying file system, expressed in virtual paths.
 func (in *inst) snapInside() fsx.Snap {
 	var roots []string
-	if in.kind == "OrefaFS" {
-		for _, r := range []string{"/a", "/b", "/c", "/home", "/root", "/tmp", "/w"} {
+	if in.orefa {
+		for _, r := range []string{"/a", "/b", "/c", "/home", "/root", "/tmp", "/w", "/Users", "/Windows"} {
 			roots = append(roots, in.base+r)
 		}
 	} else {
 		roots = []string{in.base}
 	}
-	s := fsx.Snapshot(in.x, fsx.SnapOpts{Roots: roots, NoOwner: in.kind == "OrefaFS"})
+	s := fsx.Snapshot(in.view(in.x), fsx.SnapOpts{Roots: roots, NoOwner: in.orefa})
 	for i := range s {
 		s[i].Path = strings.TrimPrefix(s[i].Path, in.base)
 		if s[i].Path == "" {
@@ -139,10 +198,10 @@ func (in *inst) snapInside() fsx.Snap {
 
 func (in *inst) snapRef() fsx.Snap {
 	roots := []string{"/"}
-	if in.kind == "OrefaFS" {
-		roots = []string{"/a", "/b", "/c", "/home", "/root", "/tmp", "/w"}
+	if in.orefa {
+		roots = []string{"/a", "/b", "/c", "/home", "/root", "/tmp", "/w", "/Users", "/Windows"}
 	}
-	return fsx.Snapshot(in.r, fsx.SnapOpts{Roots: roots, NoOwner: in.kind == "OrefaFS"})
+	return fsx.Snapshot(in.view(in.r), fsx.SnapOpts{Roots: roots, NoOwner: in.orefa})
 }
 
 func pathClass(p string) string {
@@ -172,10 +231,13 @@ func pathClass(p string) string {
 // (known finding C01-orefafs-root), so calls whose operand resolves to the
 // virtual root have no usable reference and are not issued.
 func (in *inst) rootOperand(o fsx.Op) bool {
-	if in.kind != "OrefaFS" {
+	if !in.orefa {
 		return false
 	}
 	cwd, _ := in.r.Getwd()
+	if in.win {
+		cwd = strings.ReplaceAll(strings.TrimPrefix(cwd, "C:"), `\`, "/")
+	}
 	isRoot := func(p string) bool {
 		if strings.HasPrefix(p, "/") {
 			return path.Clean(p) == "/"
@@ -205,6 +267,17 @@ func (in *inst) step(c *vt.Ctx, o fsx.Op) *vt.Deviation {
 	if strings.HasPrefix(o.K, "F") && in.skipSlot[o.H] {
 		return nil // the call that should have filled this handle slot was not issued
 	}
+	if o.K == "BaseChdir" {
+		// the owner of the underlying file system moves ITS working directory to a place outside the
+		// base directory: the wrapper is documented to be in its root then (so is the reference)
+		if err := in.r.Chdir(in.conv("/")); err != nil {
+			c.Excluded("C01-orefafs-root(reference)") // the OrefaFS reference cannot go back to its root
+			return nil
+		}
+		c.Eval(1)
+		_ = in.x.Chdir(in.conv(o.P))
+		return nil
+	}
 	if o.K == "Open" || o.K == "Create" || o.K == "CreateTemp" {
 		in.skipSlot[o.H] = false
 	}
@@ -216,12 +289,23 @@ func (in *inst) step(c *vt.Ctx, o fsx.Op) *vt.Deviation {
 		return nil
 	}
 	c.Eval(1)
+	orig := o
+	o = fsx.Retarget(o, in.win)
+	if in.win && (foreignVolume(o.P) || foreignVolume(o.P2)) {
+		in.confOnly = true
+	}
+	if strings.Contains(o.P+o.P2, path.Base(in.base)) { // (the universe of names is lower case)
+		in.mentioned = true
+	}
 	ow := in.rw.Do(o)
-	or := in.rr.Do(o)
+	var or fsx.Out
+	if !in.confOnly {
+		or = in.rr.Do(o)
+	}
 	mk := func(clause, detail string) *vt.Deviation {
-		d := vt.Dev("prop", "C10", "fs", in.kind, "op", o.K, "clause", clause, "a", pathClass(o.P))
+		d := vt.Dev("prop", "C10", "fs", in.kind, "op", o.K, "clause", clause, "a", pathClass(orig.P))
 		if o.K == "Rename" || o.K == "Link" {
-			d.Fields["b"] = pathClass(o.P2)
+			d.Fields["b"] = pathClass(orig.P2)
 		}
 		d.Detail = fmt.Sprintf("BasePathFS(%s,%s) %s -> %s, standalone %s: %s", in.kind, in.base, o, ow, or, detail)
 		return d
@@ -244,9 +328,12 @@ func (in *inst) step(c *vt.Ctx, o fsx.Op) *vt.Deviation {
 	}
 	// every path returned or embedded in an error is virtual
 	for _, s := range []string{ow.Val, ow.EPath} {
-		if s != "" && strings.Contains(s, in.base) && !strings.Contains(or.Val+or.EPath, in.base) {
+		if s != "" && strings.Contains(s, in.baseText) && !strings.Contains(or.Val+or.EPath, in.baseText) && !(in.confOnly && in.mentioned) {
 			return mk("reveals-base", fmt.Sprintf("%q mentions the base directory", s))
 		}
+	}
+	if in.confOnly {
+		return nil
 	}
 	if ow.Err != or.Err {
 		return mk("outcome", "outcome differs from the standalone file system")
@@ -267,6 +354,9 @@ func (in *inst) step(c *vt.Ctx, o fsx.Op) *vt.Deviation {
 // parity: path helpers and accessors of the wrapper answer as the standalone file system does
 // (Abs in particular is a path the wrapper returns: virtual).
 func (in *inst) parity() *vt.Deviation {
+	if in.confOnly {
+		return nil // the reference was left behind
+	}
 	if diff := fsx.LexicalParity(in.w, in.r, parityStrs); diff != "" {
 		d := vt.Dev("prop", "C10", "fs", in.kind, "op", "helpers", "clause", "value")
 		d.Detail = fmt.Sprintf("BasePathFS(%s,%s) %s", in.kind, in.base, diff)
@@ -303,9 +393,19 @@ func hostile(base string) []string {
 		"/../" + strings.TrimPrefix(base, "/") + "2/x", "a/../../../secret", "/w//a", "/w/./a", "/w/a/", "./a", "/", ".", "/w/a/..", "w", "w/a", "/w/outside", "/secret"}
 }
 
-func drawOp(t *rapid.T, cfg gen.Config, base string) gen.Inst {
+// foreign: Windows spellings that name another volume (as written before the rewrite to backslashes):
+// UNC shares - one whose text continues the base directory's own name -, another drive, device paths
+func foreign(base string) []string {
+	return []string{"//2/x", "//srv/pub/d", "//srv/pub", "//srv/pub/../../secret", "D:/x", "D:/", "D:", "D:../secret", "//?/C:/secret", "//./C:/secret", "//?/C:" + base + "2/x", "//x/y/z"}
+}
+
+func drawOp(t *rapid.T, cfg gen.Config, base string, win bool) gen.Inst {
 	in := cfg.Draw(t)
 	o := &in[0]
+	if win && rapid.IntRange(0, 14).Draw(t, "foreign") == 0 && o.K != "Symlink" && o.K != "RenameTemp" {
+		o.P = rapid.SampledFrom(foreign(base)).Draw(t, "fp")
+		return in
+	}
 	if rapid.IntRange(0, 2).Draw(t, "hostile") == 0 {
 		h := hostile(base)
 		if o.K != "Symlink" && o.K != "RenameTemp" {
@@ -343,15 +443,20 @@ func TestCheck(t *testing.T) {
 		return
 	}
 	bases := []string{"/B", "/w/B"}
-	for _, kind := range []string{"MemFS", "OrefaFS"} {
+	for _, kind := range []string{"MemFS", "OrefaFS", "MemFS-win", "OrefaFS-win"} {
 		kind := kind
-		cfg := gen.Config{Symlinks: false, Root: kind == "MemFS", Base: "/w", NoTemp: true, Kinds: kindsFor()} // temp names are random on both sides
+		win := strings.HasSuffix(kind, "-win")
+		cfg := gen.Config{Symlinks: false, Root: strings.HasPrefix(kind, "MemFS"), Base: "/w", NoTemp: true, NoTmp: win, Kinds: kindsFor()} // temp names are random on both sides
 		// bounded-exhaustive: every call on every hostile path, after a small prefix and a Chdir
 		prefix := []fsx.Op{{K: "Mkdir", P: "/w/a", Perm: 0o755}, {K: "WriteFile", P: "/w/a/b", Data: "AB", Perm: 0o644}, {K: "Mkdir", P: "/a", Perm: 0o755}}
 		idx := 0
 		for _, base := range bases {
 			for _, cd := range []string{"", "/w", "/w/a"} {
-				for _, hp := range hostile(base) {
+				hps := hostile(base)
+				if win {
+					hps = append(hps, foreign(base)...)
+				}
+				for _, hp := range hps {
 					for _, k := range []string{"Stat", "Lstat", "ReadDir", "ReadFile", "Mkdir", "MkdirAll", "Remove", "RemoveAll", "WriteFile", "Create", "Chdir", "Chmod", "Truncate", "Glob", "WalkDir", "Open"} {
 						for _, hp2 := range append([]string{""}, hostile(base)[:6]...) {
 							if hp2 != "" && k != "Stat" {
@@ -393,7 +498,11 @@ func TestCheck(t *testing.T) {
 			held := map[int]bool{}
 			for n := rapid.IntRange(1, 30).Draw(t, "n"); n > 0; n-- {
 				ops := []fsx.Op(nil)
-				switch rapid.IntRange(0, 5).Draw(t, "what") {
+				switch rapid.IntRange(0, 6).Draw(t, "what") {
+				case 6: // the working directory of the underlying file system leaves the base directory
+					ops = []fsx.Op{{K: "BaseChdir", P: rapid.SampledFrom([]string{"/", "/w", "/a", base + "2"}).Draw(t, "out")}, {K: "Getwd"}, {K: "Abs", P: "x"},
+						{K: "Stat", P: rapid.SampledFrom([]string{"w", ".", "a", "secret", "outside", "b", "x"}).Draw(t, "rel")}}
+					nt = true
 				case 0: // open a handle through a (possibly hostile) spelling and keep it
 					h := rapid.IntRange(1, 2).Draw(t, "h")
 					ps := append(hostile(base), cfg.Paths()...)
@@ -419,7 +528,7 @@ func TestCheck(t *testing.T) {
 						held[h] = false
 					}
 				default:
-					ops = drawOp(t, cfg, base)
+					ops = drawOp(t, cfg, base, win)
 				}
 				for _, o := range ops {
 					cs.Ops = append(cs.Ops, o)
